@@ -1,0 +1,34 @@
+//go:build verif
+
+package gateway
+
+import "go.sia.tech/core/types"
+
+// Pass-throughs to unexported codec methods, compiled only with the "verif"
+// build tag. They let a simulation put real gateway messages on a simulated
+// message network without a multiplexer per link. Nothing here changes
+// behaviour; without the tag this file is not part of the package.
+
+// VerifEncodeOutline encodes ob exactly as RPCRelayV2BlockOutline does.
+func VerifEncodeOutline(e *types.Encoder, ob *V2BlockOutline) { ob.encodeTo(e) }
+
+// VerifDecodeOutline decodes ob exactly as RPCRelayV2BlockOutline does.
+func VerifDecodeOutline(d *types.Decoder, ob *V2BlockOutline) { ob.decodeFrom(d) }
+
+// VerifEncodeRequest encodes the request part of o.
+func VerifEncodeRequest(e *types.Encoder, o Object) { o.encodeRequest(e) }
+
+// VerifDecodeRequest decodes the request part of o.
+func VerifDecodeRequest(d *types.Decoder, o Object) { o.decodeRequest(d) }
+
+// VerifMaxRequestLen returns the receiver's limit for o's request.
+func VerifMaxRequestLen(o Object) int { return o.maxRequestLen() }
+
+// VerifEncodeResponse encodes the response part of o.
+func VerifEncodeResponse(e *types.Encoder, o Object) { o.encodeResponse(e) }
+
+// VerifDecodeResponse decodes the response part of o.
+func VerifDecodeResponse(d *types.Decoder, o Object) { o.decodeResponse(d) }
+
+// VerifMaxResponseLen returns the receiver's limit for o's response.
+func VerifMaxResponseLen(o Object) int { return o.maxResponseLen() }
